@@ -141,3 +141,41 @@ contract(
         "implies(a <= r1 < r2 < a + consumer_stripe_input.height + producer_stripe.height, r1 % result.height != r2 % result.height)",
     ],
 )
+
+
+# ===== IFM area needed for an OFM area (architecture_allocator.py): sizes stripe inputs and rolling buffers ==========================
+from ethosu.vela import architecture_allocator as aa  # noqa: E402
+from ethosu.vela.architecture_features import Block  # noqa: E402
+from ethosu.vela.ethos_u55_regs.ethos_u55_regs import resampling_mode  # noqa: E402
+
+
+def rows_needed(out_rows, stride, dilated_kernel, upscale, nearest):
+    """IFM rows (after undoing the upscaling) read by `out_rows` consecutive output rows: the receptive field is
+    (out_rows - 1) * stride + dilated_kernel rows of the upscaled IFM (+1 for nearest-neighbour resampling), divided by the upscale
+    factor and rounded up."""
+    return ((out_rows - 1) * stride + dilated_kernel + (1 if nearest else 0) + upscale - 1) // upscale
+
+
+contract(
+    "ethosu.vela.architecture_allocator:_required_size", props=["C10", "C15"],
+    variants={"upscale=%d" % u: dict(value=TInt(lo=1, hi=65536), stride=TInt(lo=1, hi=8), border=TInt(lo=1, hi=256), upscale=TConst(u), nearest=PyBool)
+              for u in (1, 2)},
+    ensures=["result == rows_needed(value, stride, border, upscale, nearest)"],
+    returns=PyInt,
+)
+
+OFM_AREA = TStruct(Block, width=TInt(lo=1, hi=65536), height=TInt(lo=1, hi=65536), depth=TInt(lo=1, hi=65536))
+
+contract(
+    "ethosu.vela.architecture_allocator:get_ifm_area_required", props=["C10"],
+    types=dict(ofm_shape=OFM_AREA, kernel=KERNEL, resampling_mode=TEnum(resampling_mode)),
+    ensures=[
+        # (width, height): each axis with ITS OWN stride and dilated kernel extent
+        "result[0] == rows_needed(ofm_shape.width, kernel.stride.x, (kernel.width - 1) * kernel.dilation.x + 1,"
+        " 1 if resampling_mode == resampling_mode.NONE else 2, resampling_mode == resampling_mode.NEAREST)",
+        "result[1] == rows_needed(ofm_shape.height, kernel.stride.y, (kernel.height - 1) * kernel.dilation.y + 1,"
+        " 1 if resampling_mode == resampling_mode.NONE else 2, resampling_mode == resampling_mode.NEAREST)",
+        # enough for the box the stripe generator later requests (no upscaling): at least the receptive field
+        "implies(resampling_mode == resampling_mode.NONE, result[1] >= (ofm_shape.height - 1) * kernel.stride.y + (kernel.height - 1) * kernel.dilation.y + 1)",
+    ],
+)
